@@ -1,0 +1,310 @@
+//go:build verif
+
+package secs1
+
+// Verification seams for the SECS-I block layer, the inbound assembler and the line-control
+// engine (build tag `verif`, add-only). Nothing here changes behaviour: every function calls the
+// unexported production code and returns what it did in plain exported types.
+
+import (
+	"context"
+	"errors"
+	"net"
+	"time"
+
+	"github.com/arloliu/go-secs/v2/hsms"
+	"github.com/arloliu/go-secs/v2/internal/wire"
+)
+
+// VerifHeader mirrors messageHeader.
+type VerifHeader struct {
+	DeviceID    uint16
+	RBit        bool
+	Stream      uint8
+	Function    uint8
+	WBit        bool
+	SystemBytes [4]byte
+}
+
+// VerifBlock mirrors block (header + materialized body).
+type VerifBlock struct {
+	Header [10]byte
+	Body   []byte
+}
+
+// Error classes (errors.Is against the package sentinels; never message text).
+const (
+	VerifOK = iota
+	VerifErrInvalidLength
+	VerifErrChecksum
+	VerifErrInvalidHeader
+	VerifErrTooLarge
+	VerifErrEmptyBlocks
+	VerifErrBlockNumber
+	VerifErrEBit
+	VerifErrHeaderMismatch
+	VerifErrT1
+	VerifErrT2
+	VerifErrSendFailed
+	VerifErrContext
+	VerifErrOther
+)
+
+// VerifErrClass projects an error of this package onto its class.
+func VerifErrClass(err error) int {
+	switch {
+	case err == nil:
+		return VerifOK
+	case errors.Is(err, ErrInvalidLength):
+		return VerifErrInvalidLength
+	case errors.Is(err, ErrChecksumMismatch):
+		return VerifErrChecksum
+	case errors.Is(err, ErrInvalidHeader):
+		return VerifErrInvalidHeader
+	case errors.Is(err, ErrMessageTooLarge):
+		return VerifErrTooLarge
+	case errors.Is(err, ErrEmptyBlocks):
+		return VerifErrEmptyBlocks
+	case errors.Is(err, ErrBlockNumberMismatch):
+		return VerifErrBlockNumber
+	case errors.Is(err, ErrEBitPlacement):
+		return VerifErrEBit
+	case errors.Is(err, ErrHeaderMismatch):
+		return VerifErrHeaderMismatch
+	case errors.Is(err, ErrT1Timeout):
+		return VerifErrT1
+	case errors.Is(err, ErrT2Timeout):
+		return VerifErrT2
+	case errors.Is(err, ErrSendFailed):
+		return VerifErrSendFailed
+	case errors.Is(err, context.Canceled), errors.Is(err, context.DeadlineExceeded):
+		return VerifErrContext
+	}
+
+	return VerifErrOther
+}
+
+func (h VerifHeader) internal() messageHeader {
+	return messageHeader{deviceID: h.DeviceID, rBit: h.RBit, stream: h.Stream, function: h.Function, waitBit: h.WBit, systemBytes: h.SystemBytes}
+}
+
+func verifHeaderOf(m messageHeader) VerifHeader {
+	return VerifHeader{DeviceID: m.deviceID, RBit: m.rBit, Stream: m.stream, Function: m.function, WBit: m.waitBit, SystemBytes: m.systemBytes}
+}
+
+func (b VerifBlock) internal() block {
+	return block{header: b.Header, body: wire.ChunkOf(b.Body)}
+}
+
+func verifBlockOf(b block) VerifBlock {
+	return VerifBlock{Header: b.header, Body: b.body.AppendTo(nil)}
+}
+
+// VerifBuildHeader runs buildHeader.
+func VerifBuildHeader(h VerifHeader, blockNumber uint16, last bool) [10]byte {
+	return buildHeader(h.internal(), blockNumber, last)
+}
+
+// VerifHeaderFields runs the block accessors on a header.
+func VerifHeaderFields(hdr [10]byte) (VerifHeader, uint16, bool) {
+	b := block{header: hdr}
+
+	return verifHeaderOf(b.messageHeader()), b.blockNumber(), b.eBit()
+}
+
+// VerifSplitBody runs splitBody and drains the iterator.
+func VerifSplitBody(body []byte, h VerifHeader) ([]VerifBlock, int) {
+	seq, err := splitBody(wire.AdoptBody(body), h.internal())
+	if err != nil {
+		return nil, VerifErrClass(err)
+	}
+	var out []VerifBlock
+	for blk := range seq {
+		out = append(out, verifBlockOf(blk))
+	}
+
+	return out, VerifOK
+}
+
+// VerifSplitFrame runs transport.splitFrame for a connection configured with deviceID/role on the
+// core-framed data frame bufs ([14-byte prefix][body slices...]).
+func VerifSplitFrame(deviceID uint16, isEquip bool, bufs net.Buffers) ([]VerifBlock, int) {
+	cfg, err := verifConfig(deviceID, isEquip)
+	if err != nil {
+		return nil, VerifErrOther
+	}
+	t := &transport{cfg: cfg}
+	blocks, err := t.splitFrame(bufs[0][4:14], bufs)
+	if err != nil {
+		return nil, VerifErrClass(err)
+	}
+	out := make([]VerifBlock, 0, len(blocks))
+	for _, blk := range blocks {
+		out = append(out, verifBlockOf(blk))
+	}
+
+	return out, VerifOK
+}
+
+// VerifAppendBlock runs block.appendTo(nil).
+func VerifAppendBlock(b VerifBlock) []byte { return b.internal().appendTo(nil) }
+
+// VerifParseBlock runs parseBlock.
+func VerifParseBlock(lengthByte byte, rest []byte) (VerifBlock, int) {
+	blk, err := parseBlock(lengthByte, rest)
+	if err != nil {
+		return VerifBlock{}, VerifErrClass(err)
+	}
+
+	return verifBlockOf(blk), VerifOK
+}
+
+// VerifAssembleFrame runs assembleFrame.
+func VerifAssembleFrame(blocks []VerifBlock) ([]byte, int) {
+	in := make([]block, len(blocks))
+	for i, b := range blocks {
+		in[i] = b.internal()
+	}
+	frame, err := assembleFrame(in)
+
+	return frame, VerifErrClass(err)
+}
+
+func verifConfig(deviceID uint16, isEquip bool) (Config, error) {
+	role := WithHost()
+	if isEquip {
+		role = WithEquipment()
+	}
+
+	return NewConfig("127.0.0.1", 5000, role, WithDeviceID(deviceID))
+}
+
+// VerifEvent is one assembler.accept call: the injected clock reading (ns since an arbitrary
+// base), the live T4 in force during the call, and the block.
+type VerifEvent struct {
+	Now   int64
+	T4    int64
+	Block VerifBlock
+}
+
+// VerifViolation is one notify(violation, header) callback. Kind: 1 device id, 2 block number,
+// 3 header mismatch, 4 invalid first block, 0 anything else.
+type VerifViolation struct {
+	Kind   int
+	Header [10]byte
+}
+
+// VerifStepOut is everything one accept call did.
+type VerifStepOut struct {
+	Deliveries [][]byte
+	Violations []VerifViolation
+	// Counter deltas: device-id mismatch, direction drop, partial timeout, duplicate drop,
+	// block-number mismatch, invalid first block.
+	Counters [6]uint64
+	Err      int
+}
+
+// VerifAssemblerRun feeds events to ONE production assembler built by newAssembler, with an
+// injected clock and a live T4 source, and records per call what it delivered, notified, counted
+// and returned.
+func VerifAssemblerRun(isEquip bool, deviceID uint16, events []VerifEvent) []VerifStepOut {
+	cfg, err := verifConfig(deviceID, isEquip)
+	if err != nil {
+		return nil
+	}
+	base := time.Unix(1_700_000_000, 0)
+	var cur *VerifStepOut
+	var now int64
+	var t4 int64
+	m := &ConnectionMetrics{}
+	a := newAssembler(cfg,
+		func(f []byte) error {
+			cur.Deliveries = append(cur.Deliveries, append([]byte(nil), f...))
+			return nil
+		},
+		func() hsms.TimerConfig { return hsms.TimerConfig{T4: time.Duration(t4)} },
+		m,
+		func(v error, header [10]byte) {
+			kind := 0
+			switch {
+			case errors.Is(v, ErrDeviceIDMismatch):
+				kind = 1
+			case errors.Is(v, ErrBlockNumberMismatch):
+				kind = 2
+			case errors.Is(v, ErrHeaderMismatch):
+				kind = 3
+			case errors.Is(v, ErrInvalidFirstBlock):
+				kind = 4
+			}
+			cur.Violations = append(cur.Violations, VerifViolation{Kind: kind, Header: header})
+		})
+	a.now = func() time.Time { return base.Add(time.Duration(now)) }
+	snap := func() [6]uint64 {
+		return [6]uint64{m.DeviceIDMismatchCount(), m.BlockDirDropCount(), m.PartialTimeoutCount(),
+			m.BlockDupDropCount(), m.BlockNumberMismatchCount(), m.InvalidFirstBlockCount()}
+	}
+	out := make([]VerifStepOut, len(events))
+	for i, ev := range events {
+		cur = &out[i]
+		now, t4 = ev.Now, ev.T4
+		before := snap()
+		cur.Err = VerifErrClass(a.accept(ev.Block.internal()))
+		after := snap()
+		for k := range before {
+			cur.Counters[k] = after[k] - before[k]
+		}
+	}
+
+	return out
+}
+
+// VerifLine wraps one production lineIO over a caller-supplied conn with an injectable clock.
+type VerifLine struct {
+	l *lineIO
+}
+
+// VerifNewLine builds the lineIO exactly as the line engine does (newLineIO) and then injects now.
+func VerifNewLine(conn net.Conn, isEquip bool, now func() time.Time, timers func() hsms.TimerConfig) (*VerifLine, error) {
+	cfg, err := verifConfig(1, isEquip)
+	if err != nil {
+		return nil, err
+	}
+	l := newLineIO(conn, cfg, timers, &ConnectionMetrics{})
+	if now != nil {
+		l.now = now
+	}
+
+	return &VerifLine{l: l}, nil
+}
+
+// SendBlock runs lineIO.sendBlock; deliver receives blocks taken during a contention yield.
+func (v *VerifLine) SendBlock(ctx context.Context, blk VerifBlock, retryLimit int, deliver func(VerifBlock)) int {
+	err := v.l.sendBlock(ctx, blk.internal(), retryLimit, func(b block) error {
+		if deliver != nil {
+			deliver(verifBlockOf(b))
+		}
+
+		return nil
+	})
+
+	return VerifErrClass(err)
+}
+
+// ReceiveBlock runs lineIO.receiveBlock (the caller has already answered ENQ with EOT).
+func (v *VerifLine) ReceiveBlock(ctx context.Context) (VerifBlock, int) {
+	blk, err := v.l.receiveBlock(ctx)
+	if err != nil {
+		return VerifBlock{}, VerifErrClass(err)
+	}
+
+	return verifBlockOf(blk), VerifOK
+}
+
+// PutByte / PollByte expose the two byte primitives the idle poll of lineEngine uses.
+func (v *VerifLine) PutByte(b byte) error { return v.l.writeByte(b) }
+
+// PollByte reads one byte with the given timeout through the line's single reader.
+func (v *VerifLine) PollByte(timeout time.Duration) (byte, error) { return v.l.readByte(timeout) }
+
+// Metrics returns the line's block counters.
+func (v *VerifLine) Metrics() *ConnectionMetrics { return v.l.metrics }
